@@ -59,6 +59,35 @@ Section Complete.
     eexists. split; [reflexivity|]. cbn. repeat split.
   Qed.
 
+  (* LIST MODE, first step: the span becomes the longest common prefix when that is longer than the span (in bytes)
+     or there is exactly one candidate; only the span is rewritten *)
+  Theorem list_span_extends s start cands lcp l w r :
+    lcp_all cands = Some lcp -> blen w < blen lcp \/ length cands = 1 ->
+    buf (e_line s) = l ++ w ++ r -> start = blen l -> pos (e_line s) = blen l + blen w ->
+    exists s', list_span_step U cfg start cands s = EOk tt s'
+               /\ buf (e_line s') = l ++ lcp ++ r /\ pos (e_line s') = blen l + blen lcp
+               /\ e_hist s' = e_hist s /\ grow (e_line s') = grow (e_line s).
+  Proof.
+    intros Hl Hc Hb Hs Hp. subst start. unfold list_span_step. run_c. rewrite Hl.
+    assert (Hcond : Nat.ltb (pos (e_line s) - blen l) (blen lcp) || Nat.eqb (length cands) 1 = true).
+    { destruct Hc as [Hlt|H1]; apply Bool.orb_true_iff; [left; apply Nat.ltb_lt; lia|right; apply Nat.eqb_eq; exact H1]. }
+    rewrite Hcond. run_c. rewrite Hp, (replace_spec (e_line s) l w r lcp Hb). run_c.
+    destruct (c_has_helper cfg); run_c; eexists; (split; [reflexivity|]); cbn; repeat split.
+  Qed.
+
+  (* ... and otherwise nothing at all happens in that step *)
+  Theorem list_span_keeps s start cands :
+    (lcp_all cands = None
+     \/ exists lcp, lcp_all cands = Some lcp /\ blen lcp <= pos (e_line s) - start /\ length cands <> 1) ->
+    list_span_step U cfg start cands s = EOk tt s.
+  Proof.
+    intros H. unfold list_span_step. unfold ebind at 1. cbn [eget].
+    destruct H as [Hn|[lcp [Hl [Hle Hne]]]]; [rewrite Hn; reflexivity|]. rewrite Hl.
+    replace (Nat.ltb (pos (e_line s) - start) (blen lcp)) with false by (symmetry; apply Nat.ltb_ge; exact Hle).
+    replace (Nat.eqb (length cands) 1) with false by (symmetry; apply Nat.eqb_neq; exact Hne).
+    reflexivity.
+  Qed.
+
   (* after the last candidate: the original text and cursor *)
   Theorem shows_original s start cands backup i :
     length cands <= i -> grow (e_line s) = true -> snd backup <= blen (fst backup) ->
